@@ -21,7 +21,16 @@ another polygon set, then twice in a row), under a watchdog, and validates each 
 64-bit transcription of ValidTriangulation.  A sample of the recorded (polygons, triangles) goes
 back to TLC (Poly_Trace.tla: Accept / Reject / SameClause), so the TLA+ predicate itself is what
 is evaluated on the implementation's outputs.  Seeded random star / rectilinear polygon sets
-(nested rings, holes, up to ~200 vertices) go through the same validators."""
+(nested rings, holes, up to ~200 vertices) go through the same validators.
+Placement / scale ("at any scale and epsilon"): Poly.tla (a') defines the similarity placements
+s * p + t (s in 1e-3, 1e-2, 1, 1e3; |t| in 0, 1e3, 1e5, 3e6 along x, y, both; real units, so the
+coordinates are rounded, not exact) and prints with every case the classes that leave the placed
+set epsilon-valid with margin (feature size >= 1000 * default epsilon = 1e-9 * largest coordinate);
+the driver presents every case under some of them (all of them in the thorough all-views pass) and
+validates the returned triangles on the lattice against the SAME expected numbers: the result must
+not depend on where the polygon lies or how big it is.  TLC checks PlaceNumbers / PlaceValid (the
+oracle's numbers, validity and nesting are invariant under similarities) and, in Poly_Trace,
+PlaceOK of the recorded placements."""
 import json, os, glob, random, hashlib, re, time
 from concurrent.futures import ThreadPoolExecutor
 import vf, progfam
@@ -103,6 +112,46 @@ def eps_valid_set(P):
     return True
 
 
+# transcription of Poly.tla (a') for the seeded random sets only (TLC-generated cases carry the spec's own
+# list; the driver cross-checks every list against its transcription, Poly_Trace.tla!PlaceLogged re-derives
+# the recorded ones in TLC)
+P_SCALES = [(1, 1000), (1, 100), (1, 1), (1000, 1)]
+P_OFFSETS = [0, 1000, 100000, 3000000]
+
+
+def admissible_classes(P):
+    cd = lambda x, y: (x + y - 1) // y
+    pts = set((p[0], p[1]) for c in P for p in c)
+    f2 = 1
+    for c in P:
+        for i in range(len(c)):
+            a, b = c[i], c[(i + 1) % len(c)]
+            for p in pts:
+                if p == (a[0], a[1]) or p == (b[0], b[1]):
+                    continue
+                if (p[0] - a[0]) * (b[0] - a[0]) + (p[1] - a[1]) * (b[1] - a[1]) <= 0 or \
+                   (p[0] - b[0]) * (a[0] - b[0]) + (p[1] - b[1]) * (a[1] - b[1]) <= 0:
+                    v = 1
+                else:
+                    o = orient(a, b, p)
+                    v = 1000000 if o == 0 else cd((b[0] - a[0]) ** 2 + (b[1] - a[1]) ** 2, o * o)
+                f2 = max(f2, v)
+    q = 1
+    while q * q < f2:
+        q += 1
+    m = max(max(abs(p[0]), abs(p[1])) for p in pts)
+    wh = max(p[0] for p in pts) - min(p[0] for p in pts) + max(p[1] for p in pts) - min(p[1] for p in pts)
+    out = []
+    for (sn, sd) in P_SCALES:
+        for T in P_OFFSETS:
+            if (sn, sd, T) == (1, 1, 0):
+                continue
+            X = (T // 1000) * sd + cd(sn * m, 1000)
+            if q * X <= sn * 1000000 and cd(wh * X, 100) <= sn * 1000000:
+                out.append([sn, sd, T])
+    return out
+
+
 def make_case(P, fam):
     idx = 0
     polys = []
@@ -113,7 +162,7 @@ def make_case(P, fam):
     h = sum(1 for c in P if area2(c) < 0)
     o = sum(1 for c in P if area2(c) > 0)
     return {'fam': fam, 'polys': polys, 'valid': True, 'V': V, 'h': h, 'o': o,
-            'ntri': V - 2 + 2 * h - 2 * (o - 1), 'area2': sum(area2(c) for c in P)}
+            'ntri': V - 2 + 2 * h - 2 * (o - 1), 'area2': sum(area2(c) for c in P), 'place': admissible_classes(P)}
 
 
 # ------------------------------------------------------------------ seeded random families
@@ -429,6 +478,7 @@ def trace_validate(chk, recs, tier):
                 raise vf.ToolError('Poly_Trace (%s): %s violated: the driver transcription and the specification disagree '
                                    'on record %s\n%s' % (mode, r.violation, json.dumps(rec)[:800], r.out[-1500:]))
         out[mode] = len(items)
+    out['placed'] = sum(1 for r in sample if r.get('place'))
     return out
 
 
@@ -443,9 +493,9 @@ def main(tier):
     vf.log('[C10] %d cases from TLC, %d seeded random (%.0fs)' % (ntlc, len(cases) - ntlc, time.time() - chk.t0))
     opts = ['--record', '--recevery=%d' % (40 if tier == 'quick' else 120), '--recmaxtri=%d' % (80 if tier == 'quick' else 220)]
     if tier == 'quick':
-        opts += ['--views=2']
+        opts += ['--views=2', '--place=2']
     else:
-        opts += ['--views=5']
+        opts += ['--views=5', '--place=6']
     results, crashes, recs, args = run_driver(chk, cases, opts, 'A', timeout=1200 if tier == 'quick' else 6000)
     nfail = judge(chk, cases, results, crashes, args)
     vf.log('[C10] driver pass A: %d cases, %d failing, %d crashes (%.0fs)' % (len(results), nfail, len(crashes), time.time() - chk.t0))
@@ -460,7 +510,8 @@ def main(tier):
                              'rule': 'aborted after the first driver pass because of violations', 'samples': [],
                              'traces_validated_against_impl': 0})
         chk.finish()
-    res2, cr2, recs2, args2 = run_driver(chk, sub, ['--allviews', '--record', '--recevery=400', '--recmaxtri=80'], 'B')
+    res2, cr2, recs2, args2 = run_driver(chk, sub, ['--allviews', '--place=6' if tier == 'quick' else '--allplace',
+                                                    '--record', '--recevery=400', '--recmaxtri=80'], 'B')
     nfail += judge(chk, sub, res2, cr2, args2)
     vf.log('[C10] driver pass B (all views): %d cases (%.0fs)' % (len(res2), time.time() - chk.t0))
     tv = trace_validate(chk, recs + recs2, tier)
@@ -468,6 +519,17 @@ def main(tier):
     calls = sum(r.get('calls', 0) for r in results.values()) + sum(r.get('calls', 0) for r in res2.values())
     nontriv = sum(1 for r in results.values() if r.get('nontrivial'))
     convex_diff = sum(1 for r in results.values() if r.get('diag', {}).get('convexPathDiffers'))
+    allres = list(results.values()) + list(res2.values())
+    placed_by = {}
+    for r in allres:
+        for k, n in r.get('placedby', {}).items():
+            placed_by[k] = placed_by.get(k, 0) + n
+    nclasses = {}
+    for c in cases:
+        if c.get('valid', True):
+            nclasses[len(c.get('place', []))] = nclasses.get(len(c.get('place', [])), 0) + 1
+    holes_far = sum(1 for c in cases if c.get('valid', True) and c.get('h', 0) > 0 and
+                    any(pl[2] >= 100000 and pl[0] < pl[1] for pl in c.get('place', [])))
     pick = lambda fam: next((poly_text(c) for c in cases if c['fam'] == fam and c['V'] >= 6), None)
     chk.coverage.update({
         'evaluations': calls,
@@ -477,17 +539,33 @@ def main(tier):
         'cases_where_convex_fast_path_changed_the_triangles': convex_diff,
         'traces_validated_against_impl': tv['accept'],
         'trace_records_rejected_as_required': tv['reject'],
+        'placement': {
+            'classes': 'scale sn/sd in 1/1000, 1/100, 1, 1000 x offset T in 0, 1e3, 1e5, 3e6 (15 classes + the lattice itself), '
+                       'T along +x, +y, (+x,+y), (-x,+y); admissible for a set iff feature size >= 1000 * default epsilon '
+                       'and 1/(W+H) >= 10 * epsilon (Poly.tla!ClassOK)',
+            'cases_presented_under_placements': sum(1 for r in allres if r.get('placed', 0) > 0),
+            'placement_views_executed': sum(r.get('placed', 0) for r in allres),
+            'library_calls_under_placements': sum(r.get('placedcalls', 0) for r in allres),
+            'views_per_class(sn/sd@T)': dict(sorted(placed_by.items())),
+            'valid_cases_by_number_of_admissible_classes': {str(k): v for k, v in sorted(nclasses.items())},
+            'cases_with_holes_admitting_a_downscaled_placement_at_T>=1e5': holes_far,
+            'trace_records_with_placement_checked_by_TLC': tv.get('placed', 0)},
         'exhaustive': True,
         'rule': 'evaluations = library calls (TriangulateIdx allowConvex true/false, Triangulate, reused PolygonTriangulator x3) '
                 'whose output was validated against ValidTriangulation; cases = distinct polygon sets (family S: EVERY simple '
                 'lattice polygon of the configured grid/vertex bound up to translation, by TLC BFS); non-trivial = the set has a '
                 'hole / several contours or a vertex that is not strictly convex (the ear clipper decides something); '
+                'placement: every case is also run under 2 (quick pass A), 6 (quick pass B) / 6 and all (thorough) of its admissible '
+                'placements (the first at the least margin the spec admits), validated against the same expected numbers; '
                 'traces_validated = recorded (polygons, triangles) pairs on which TLC itself evaluated ValidTriangulation',
         'samples': [s for s in (pick('S'), pick('H1'), pick('H2'), pick('N'), pick('M'), pick('C'), pick('Z'), pick('ZH'), pick('D'), pick('R')) if s]})
     chk.assumptions += [
         'lattice inputs (|coordinate| <= 64) mapped to doubles by exact similarities (rotations by 90 degrees, scale 2^-20..2^30, '
         'translation up to 2^30 lattice units, explicit epsilon 1e-9/1e-3 units); validity "within epsilon" is exact there: a '
         'clockwise lattice triangle is further than 2*epsilon from degenerate, so CCW-within-epsilon == cross product >= 0',
+        'placements s*p+t in real units (scale 1e-3..1e3, offset up to 3e6, default epsilon): coordinates are correctly rounded '
+        'rationals (rounding <= 1.2e-4 epsilon), used only where the feature size is >= 1000 epsilon and any clockwise lattice '
+        'triangle is >= 10 epsilon from degenerate, so the verdict is still the exact lattice predicate',
         'general float polygons (validity only within epsilon) are outside the exact domain',
         'termination = the call returns within the watchdog (60 s per case)',
         'reuse: the triangle list of a reused PolygonTriangulator must equal that of a fresh one (as test TriangulatorReuse demands)']
